@@ -256,12 +256,16 @@ def finding_for(prop, key):
 
 
 def write_evidence(prop, level, coverage, assumptions, wall_s, violations=0, extra=None):
-    os.makedirs(EVIDENCE_DIR, exist_ok=True)
+    evdir = EVIDENCE_DIR
+    if os.environ.get('VERIF_NO_EVIDENCE') or REPO != '/repo':
+        # runs against a scratch copy of the repository (seeded changes) must not touch the committed evidence
+        evdir = os.path.join(tempfile.gettempdir(), 'verif-evidence-scratch')
+    os.makedirs(evdir, exist_ok=True)
     ev = dict(property_id=prop, tier=tier(), seed=seed(), level=level, coverage=coverage, assumptions=assumptions,
               wall_s=round(wall_s, 1), violations=violations)
     if extra:
         ev.update(extra)
-    path = os.path.join(EVIDENCE_DIR, f'{prop}.json')
+    path = os.path.join(evdir, f'{prop}.json')
     tmp = path + '.tmp'
     json.dump(ev, open(tmp, 'w'), indent=1, default=str)
     os.replace(tmp, path)
